@@ -1265,6 +1265,15 @@ struct HostsFamily : Family {
       ares_gethostbyaddr(ch, buf, fam == AF_INET ? 4 : 16, fam, host_cb, &r);
       o.extra += std::string("byaddr ") + ip + " " + std::to_string(r.status) + " cb=" + std::to_string(r.count) + " " + r.text + "\n";
     }
+    // the file is rewritten while the channel is alive, within the very second in which the channel read it: the valid
+    // line added at its end must take effect on the next lookup
+    rewrite_file("/vfs/hosts", e.files["/vfs/hosts"] + "\n10.77.7.7 addedlater\n", 1700000000);
+    {
+      struct hostent *h  = nullptr;
+      int             rc = ares_gethostbyname_file(ch, "addedlater", AF_INET, &h);
+      o.extra += std::string("rewritten addedlater ") + std::to_string(rc) + " " + (rc == ARES_SUCCESS ? hostent_text(h) : "") + "\n";
+      if (h) ares_free_hostent(h);
+    }
     ares_destroy(ch);
     return o;
   }
@@ -1286,6 +1295,14 @@ struct HostsFamily : Family {
       if (p == std::string::npos) return "";
       return o.extra.substr(p, o.extra.find('\n', p) - p);
     };
+    {
+      std::string l = line_of("rewritten addedlater ");
+      if (l.find("rewritten addedlater 0 ") != 0 || l.find("10.77.7.7") == std::string::npos) {
+        *field = "rewritten-file";
+        return "a valid line appended to the hosts file while the channel was alive did not take effect: " + l;
+      }
+      cx.rep.witness("hosts_file_rewritten_while_in_use");
+    }
     // each valid line takes effect: a name resolves, in the address family of the FIRST valid line that mentions it, to a set
     // containing that line's address (hosts(5) does not say what later lines with the same name or address add: c-ares merges
     // such entries, which is counted, not asserted); every address of a valid line resolves back to an entry
